@@ -136,6 +136,12 @@ def constructs(fn: ast.FunctionDef):
                 out.append((n, 'requires_grad_(False)', ast.unparse(n)))
             elif nm == 'set_grad_enabled' and n.args and isinstance(n.args[0], ast.Constant) and n.args[0].value is False:
                 out.append((n, 'no_grad', ast.unparse(n)))
+            elif dn in ('torch.linspace', 'torch.logspace', 'torch.arange', 'torch.full') and n.args:
+                # these factories read their start / end / step / fill value as Python numbers: a 0-dim tensor passed there is converted silently and leaves the graph
+                scal = list(n.args[:3]) if dn != 'torch.full' else list(n.args[1:2]) + [k.value for k in n.keywords if k.arg == 'fill_value']
+                for a in scal:
+                    if not isinstance(a, ast.Constant) and not (isinstance(a, ast.UnaryOp) and isinstance(a.operand, ast.Constant)):
+                        out.append((a, 'factory-scalar', ast.unparse(n)))
         elif isinstance(n, ast.Attribute) and n.attr == 'data' and isinstance(n.ctx, ast.Load) and not (isinstance(n.value, ast.Name) and n.value.id == 'self'):
             out.append((n, '.data', ast.unparse(n)))
         elif isinstance(n, ast.With) and any('no_grad' in ast.unparse(i.context_expr) for i in n.items):
@@ -276,6 +282,72 @@ def check_where_traps(ctx, rep, scope_fns):
     rep.analysed['where_calls'] = n
 
 
+MASK_POSITIVE = """
+def log_prob(self, heights_sorted):
+    durations = heights_sorted[..., 1:] - heights_sorted[..., :-1]
+    x = self.growth * durations
+    is_zero = (x == 0.0).to(x.dtype)
+    ratio = torch.expm1(x) / (x + is_zero) + is_zero
+    node_mask = torch.full(shape, -1)
+    keep = (node_mask == -1).to(x.dtype)
+    return ratio * keep
+"""
+
+
+def mask_patches(fn):
+    """[(binop, mask name, tested text)]: a float mask built from an EQUALITY test on a differentiable value (`(x == 0.0).to(dtype)`) that takes part in arithmetic with values of
+    the density.  Such a patch makes the value right at the singular point, but autograd differentiates the patched expression (`expm1(x) / (x + 1) + 1` at x = 0), not the
+    function's continuous extension: the derivative there is that of the patch."""
+    defs = local_assignments(fn)
+    params = {a.arg for a in fn.args.args + fn.args.kwonlyargs} - {'self'}
+
+    def differentiable(e):
+        for z in backward_slice(e, defs):
+            for y in ast.walk(z):
+                if isinstance(y, ast.Attribute) and isinstance(y.value, ast.Name) and y.value.id == 'self':
+                    return True
+                if isinstance(y, ast.Name) and y.id in params:
+                    return True
+        return False
+    masks = {}
+    for st in ast.walk(fn):
+        if isinstance(st, ast.Assign) and len(st.targets) == 1 and isinstance(st.targets[0], ast.Name):
+            v = st.value
+            while isinstance(v, ast.Call) and isinstance(v.func, ast.Attribute) and v.func.attr in ('to', 'float', 'double', 'type', 'type_as', 'half') and \
+                    not (isinstance(v.func.value, ast.Name) and v.func.value.id == 'torch'):
+                inner = v.func.value
+                if isinstance(inner, ast.Compare) and len(inner.ops) == 1 and isinstance(inner.ops[0], (ast.Eq, ast.NotEq)) and isinstance(inner.comparators[0], ast.Constant) \
+                        and isinstance(inner.comparators[0].value, (int, float)) and differentiable(inner.left):
+                    masks[st.targets[0].id] = ast.unparse(inner)
+                v = inner
+    out = []
+    for x in ast.walk(fn):
+        if isinstance(x, ast.BinOp) and isinstance(x.op, (ast.Add, ast.Sub, ast.Mult, ast.Div)):
+            for side in (x.left, x.right):
+                if isinstance(side, ast.Name) and side.id in masks:
+                    out.append((x, side.id, masks[side.id]))
+    return out
+
+
+def check_mask_patches(ctx, rep, scope_fns):
+    t = ast.parse(MASK_POSITIVE).body[0]
+    got = sorted({mk for _, mk, _ in mask_patches(t)})
+    if got != ['is_zero']:
+        raise AnalysisError(f"C12.N self-check: masks of the embedded example are {got}")
+    n = 0
+    for qual, m, fn in scope_fns:
+        n += 1
+        seen = set()
+        for node, mk, tested in mask_patches(fn):
+            if mk in seen:
+                continue
+            seen.add(mk)
+            rep.bad('C12.N', f"{qual.replace('torchtree.', '')}::value-patched-with-the-mask-{mk}", where(m, node), {'mask': tested, 'first_use': norm_text(node)[:80]},
+                    f"{qual}: the float mask `{mk} = ({tested})…` is used in arithmetic (`{norm_text(node)[:60]}`): the value is right at the masked point, but back-propagation "
+                    f"differentiates the patched expression there, not the limit of the function — the gradient with respect to the tested quantity is wrong exactly where the patch applies")
+    rep.ok('C12.N', 'mask-patches::scanned', '', {'functions': n})
+
+
 def check_leaf_rebinding(ctx, rep):
     """C12.S — assigning a new value to a Parameter installs a *new* leaf tensor (`self._tensor = tensor`) on every path.  HMC and the optimiser loops read `parameter.grad`
     after each backward() without zeroing it, relying on every assignment to start from a leaf without a `.grad`; copying the value into the existing leaf keeps the old
@@ -373,6 +445,15 @@ def run(ctx, rep):
                         f"{qual}: `{text[:70]}` is piecewise constant: its derivative is zero, so everything the rounded value depends on stops receiving a gradient through it "
                         f"while the returned value still changes with those parameters")
                 continue
+            if kind == 'factory-scalar':
+                ci_ = owner.get(id(fn))
+                if shape_derived(node, defs) or literal_only(node) or not may_be_tensor(node, fn, ci_):
+                    rep.ok('C12.D', key, W, {'class': 'a Python number (shape-derived / literal / not a tensor)'})
+                    continue
+                rep.bad('C12.D', key, W, {'construct': text[:100], 'kind': kind},
+                        f"{qual}: `{ast.unparse(node)[:40]}` is handed to `{text[:50]}` as a scalar: torch reads a 0-dim tensor there as a Python number, so the grid no longer depends on it "
+                        f"in the graph and its gradient is missing (None) although the value changes with it")
+                continue
             if kind == 'gradient-hook':
                 rep.bad('C12.D', key, W, {'construct': text[:100], 'kind': kind},
                         f"{qual}: `{text[:70]}` installs a hook that rewrites the gradient flowing through a value of the density: what back-propagation returns is no longer "
@@ -391,6 +472,7 @@ def run(ctx, rep):
                     f"{qual}: `{text[:70]}` cuts the autograd graph on a differentiable path: parameters that influence the returned value through it "
                     f"receive a missing or zero gradient")
     check_where_traps(ctx, rep, [(qual, m, fn) for m, qual, fn in targets])
+    check_mask_patches(ctx, rep, [(qual, m, fn) for m, qual, fn in targets])
     check_math_on_tensors(ctx, rep, [(m, qual, fn, owner.get(id(fn))) for m, qual, fn in targets])
     check_requires_grad_setters(ctx, rep)
     check_leaf_rebinding(ctx, rep)
@@ -398,3 +480,17 @@ def run(ctx, rep):
     rep.analysed['constructs_classified'] = n_c
     if n_fn < 250 or n_c < 20:
         raise AnalysisError(f"only {n_fn} functions / {n_c} constructs scanned")
+    # C12.H — the gradient is that of the value at the CURRENT point: a model that keeps a value (and its graph) of an earlier point hands back the old graph — backward then
+    # raises or returns the previous point's gradient.  The change handlers of the models on differentiable paths mark every cache dirty and pass the event on (C11.H rules).
+    from props import c11
+    from sa.members import Kinds
+    from sa.report import RuleProxy
+    rep.rule('C12.H', "models on differentiable paths (tree, clock, site, substitution models, likelihood, coalescent / birth-death priors) invalidate their caches and forward every change (C11.H rules)")
+    kinds = Kinds(ctx.classes)
+    nh = 0
+    for cls in sorted(ctx.classes.classes.values(), key=lambda c: c.qualname):
+        if cls.module.name.startswith('torchtree.evolution') and not cls.is_abstract() and cls.has_base('torchtree.core.parametric.Parametric'):
+            nh += 1
+            c11.check_handlers(ctx, RuleProxy(rep, 'C12.H', 'handlers::'), kinds, cls)
+    if nh < 25:
+        rep.incomplete('C12.H', '*', '', f"only {nh} model classes found")
